@@ -12,7 +12,7 @@
 (* With Gen = TRUE the caller side is exported for replay on real streams. *)
 (***************************************************************************)
 EXTENDS Block, TLC, Json, FiniteSets
-CONSTANTS BS0, BS1, HS, MaxLen, Gen
+CONSTANTS BS0, BS1, HS, MaxLen, Gen, Toggles
 B == <<BS0, BS1>>
 VARIABLES d, n, lastAdv, hist, primed
 vars == <<d, n, lastAdv, hist, primed>>
@@ -31,7 +31,7 @@ Syn(w, gap, gk, eos, pcm) ==
          sc1 == IF d.seq = -1 \/ gap > 0 \/ d.sc = -1 THEN (IF d.gp >= 0 /\ gap = 0 /\ d.seq # -1 THEN d.gp + adv ELSE adv) ELSE (IF d.gp >= 0 THEN d.gp + adv ELSE d.sc + adv)
          g   == GpOf(gk, sc1, adv)
      IN /\ d' = DecBlockin(B, d, w, no, g, eos, pcm)
-        /\ lastAdv' = IF pcm THEN ShrI(adv, HS) ELSE lastAdv
+        /\ lastAdv' = IF pcm THEN ShrI(adv, d.hs) ELSE lastAdv
         /\ primed' = (primed \/ pcm)
         /\ hist' = (IF Gen THEN Append(hist, <<IF pcm THEN "syn" ELSE "trk", gap, gk, IF eos THEN 1 ELSE 0>>) ELSE hist)
   /\ n' = n + 1
@@ -39,9 +39,11 @@ Read(all) ==
   /\ DecAvail(d) > 0
   /\ d' = DecRead(d, IF all THEN DecAvail(d) ELSE 1)
   /\ hist' = (IF Gen THEN Append(hist, <<"read", IF all THEN -1 ELSE 1>>) ELSE hist) /\ n' = n + 1 /\ UNCHANGED <<lastAdv, primed>>
-Restart == /\ d' = [DecRestart(B, HS) EXCEPT !.lW = d.lW, !.W = d.W] /\ lastAdv' = 0 /\ primed' = FALSE
+Restart == /\ d' = [DecRestart(B, d.hs) EXCEPT !.lW = d.lW, !.W = d.W] /\ lastAdv' = 0 /\ primed' = FALSE
            /\ hist' = (IF Gen THEN Append(hist, <<"rest">>) ELSE hist) /\ n' = n + 1
 \* blockin while samples are pending is refused (OV_EINVAL) and changes nothing
+\* vorbis_synthesis_halfrate is accepted at any time and blockin / restart read the flag live, while the buffer was sized at initialisation
+Toggle == /\ Toggles /\ d' = [d EXCEPT !.hs = 1 - d.hs] /\ hist' = (IF Gen THEN Append(hist, <<"hr", 1 - d.hs>>) ELSE hist) /\ n' = n + 1 /\ UNCHANGED <<lastAdv, primed>>
 Refused == ~DecBlockinAllowed(d) /\ UNCHANGED <<d, lastAdv, primed>> /\ hist' = (IF Gen THEN Append(hist, <<"syn", 0, "exact", 0>>) ELSE hist) /\ n' = n + 1
 
 Next == /\ n < MaxLen
@@ -49,14 +51,17 @@ Next == /\ n < MaxLen
                 (Gen => (pcm \/ gk = "none")) /\ Syn(w, gap, gk, eos, pcm)
            \/ \E all \in BOOLEAN : Read(all)
            \/ Restart
+           \/ Toggle
            \/ Refused
 Spec == Init /\ [][Next]_vars
 
-BufOK        == DecBufOK(B, d)
+BufOK        == Toggles \/ DecBufOK(B, d)
+\* the buffer is allocated for full rate (pcm_storage = blocksizes[1]) whatever the flag was at initialisation: indices stay inside it under any toggling
+StoreOK      == d.ret = -1 \/ (0 <= d.ret /\ d.ret <= d.cur /\ d.cur <= BS1)
 \* (a track-only block on a decoder that has not decoded anything since its (re)start can make never-decoded buffer content
 \*  "pending" when a short granule position arrives: the begin trim moves pcm_returned off its -1 marker.  The real code does the
 \*  same (probed); it stays inside the buffer, and no listed property speaks about it, so the bound is stated for primed decoders.)
-PendingOK    == DecAvail(d) >= 0 /\ (primed => DecAvail(d) <= lastAdv)
+PendingOK    == DecAvail(d) >= 0 /\ (primed /\ ~Toggles => DecAvail(d) <= lastAdv)
 RetInsideCur == d.ret = -1 \/ d.ret <= d.cur
 \* witnesses (expected to be violated): the end trim and the begin trim are both exercised
 NeverEndTrim   == ~(d.eof = 1 /\ DecAvail(d) > 0 /\ DecAvail(d) < lastAdv)
